@@ -227,3 +227,11 @@ package internal
 //@ requires cnt: 0 <= count && count <= 8
 //@ ensures low: zx(256, result) == k256(k) & ((bvc(256, 1) << zx(256, count)) - bvc(256, 1))
 //@ assigns nothing
+
+// ---------------------------------------------------------------------------------------------
+// Write-effect contracts (property C17): parameters not listed under `writes` are read-only;
+// `immutable` types are never written through a method receiver. Checked by `govc eff`.
+// ---------------------------------------------------------------------------------------------
+//@ func sm2/internal.ScalarBaseMult#eff
+//@ func sm2/internal.ScalarMult#eff
+//@ func sm2/internal.ScalarMixedMult_Unsafe#eff
